@@ -63,7 +63,9 @@ def generate_source_code(docstring, parsed):
             )
 
         if not rule.name:
-            rule.name = f'_anonymous_{id(rule)}'
+            # The name has to be the same whenever this description is parsed:
+            # a grammar that extends this one parses it again.
+            rule.name = f'_anonymous_{rules.index(rule)}'
 
         if rule.name in visited_names:
             raise Exception(
@@ -214,6 +216,9 @@ def generate_source_code(docstring, parsed):
         out += Code('_ctx = _Context()')
 
         if parsed.extends is not None:
+            # Start from everything the parent knows (this includes its
+            # anonymous ignore rules, which have no name to look them up by).
+            out += Code('_ctx.__dict__.update(_super_ctx.__dict__)')
             out += Code('_ctx._super_ctx = _super_ctx')
 
         if super_has_ignore and not ignored:
